@@ -330,6 +330,10 @@ def build_graph(rng, root):
         main_slots.append((txt, True))    # the main program keeps its game loop
         feats.add('main_has_gameloop')
     if rng.random() < 0.15:
+        # a library built as its own test cart: the main chunk ends in a return statement (tokens like any others)
+        main_slots.append((rng.choice((b'return\n', b'return {v=1}\n', b'return x, y -- done\n', b'return;\n', b'return f(1)')), True))
+        feats.add('main_ends_with_return')
+    if rng.random() < 0.15:
         main_slots.insert(0, (rng.choice((b'--[[ main\n  program ]]\n', b'--[==[ header\n]==]\n', b'-- title\n-- by me\n')), True))
         feats.add('main_starts_with_comment')
     main_text = b''.join(t for t, _ in main_slots)
@@ -510,7 +514,8 @@ def judge(ctx, g, root, case):
         ctx.violation('built code is not parsed to its end (%d tokens left)' % len(rest), case)
 
 
-ERROR_KINDS = ('missing', 'noargs', 'threeargs', 'nonstring', 'badoption', 'badoption2', 'missing_nested')
+ERROR_KINDS = ('missing', 'noargs', 'threeargs', 'nonstring', 'badoption', 'badoption2', 'missing_nested', 'offpath_next_to_main',
+               'offpath_next_to_package', 'offpath_env')
 
 
 def run_error(ctx, rng, root, index=0):
@@ -529,11 +534,32 @@ def run_error(ctx, rng, root, index=0):
         main = rng.choice((b'require("ok",{foo=true})\n', b'require("ok",{use_game_loop=1})\n', b'require("ok",{use_game_loop=true,x=1})\n'))
     elif kind == 'badoption2':
         main = rng.choice((b'require("ok",5)\n', b'require("ok","x")\n'))
+    elif kind.startswith('offpath'):
+        # a custom load path is the whole load path: a file that merely sits next to the requiring file, where no pattern of the
+        # path in force looks, is a file that cannot be found
+        extra_argv, extra_env = [], {}
+        files['libs/other.lua'] = b'other=1\n'
+        if kind == 'offpath_next_to_main':
+            files['helper.lua'] = b'helper=1\n'
+            main = rng.choice((b'require("other")\nrequire("helper")\n', b'require("helper")\n'))
+            extra_argv = ['--lua-path', rng.choice(('libs/?.lua', os.path.join(root, 'libs', '?.lua'), 'libs/?.lua;libs/?/init.lua'))]
+        elif kind == 'offpath_next_to_package':
+            files['libs/other.lua'] = b'local s=require("sib")\n'
+            files['libs/sib.lua'] = b'sib=1\n'
+            files['sub/x.lua'] = b'x=1\n'
+            main = b'require("other")\n'
+            # (relative patterns are applied to the directory of the requiring file: libs/libs/sib.lua does not exist)
+            extra_argv = ['--lua-path', 'libs/?.lua;' + os.path.join(root, 'sub', '?.lua')]
+        else:
+            files['helper'] = b'helper=1\n'
+            main = b'require("helper")\n'
+            extra_env = {'PICO8_LUA_PATH': os.path.join(root, 'libs', '?.lua')}
     else:
         main = b'require("ok")\n'
         files['ok.lua'] = b'local z=require("deeper/none")\n'
     files['main.lua'] = carts_prefix(rng) + main
     for rel, data in files.items():
+        os.makedirs(os.path.dirname(os.path.join(root, rel)), exist_ok=True)
         with open(os.path.join(root, rel), 'wb') as fh:
             fh.write(data)
     out = os.path.join(root, 'eout.p8')
@@ -542,11 +568,23 @@ def run_error(ctx, rng, root, index=0):
     case = {'error_kind': kind, 'files': files}
     ctx.case((kind, files['main.lua']), nontrivial=True)
     ctx.feature('error:' + kind)
+    saved_env = {k: os.environ.get(k) for k in ('PICO8_LUA_PATH',)}
+    if kind.startswith('offpath'):
+        os.environ.update(extra_env)
+        case['argv'] = [a.replace(root, '$ROOT') for a in extra_argv]
+        case['env'] = {k: v.replace(root, '$ROOT') for k, v in extra_env.items()}
     try:
-        rcode = tool.main([ambient.vflag(), 'build', out, '--lua', os.path.join(root, 'main.lua')])
+        rcode = tool.main([ambient.vflag(), 'build', out, '--lua', os.path.join(root, 'main.lua')] +
+                          (extra_argv if kind.startswith('offpath') else []))
         err = None
     except BaseException as e:
         rcode, err = 1, e
+    finally:
+        for k, v in saved_env.items():
+            if v is None:
+                os.environ.pop(k, None)
+            else:
+                os.environ[k] = v
     ctx.monitor('error_builds')
     if err is None and not rcode:
         ctx.violation('build succeeded although require() is unusable (%s): %r' % (kind, main), case)
@@ -593,10 +631,16 @@ def replay(case, ctx):
                 fh.write(data)
         ctx.case(repr(sorted(case['files'])))
         if 'error_kind' in case:
+            for k, v in case.get('env', {}).items():
+                os.environ[k] = v.replace('$ROOT', root)
             try:
-                rcode = tool.main([ambient.vflag(), 'build', os.path.join(root, 'eout.p8'), '--lua', os.path.join(root, 'main.lua')])
+                rcode = tool.main([ambient.vflag(), 'build', os.path.join(root, 'eout.p8'), '--lua', os.path.join(root, 'main.lua')] +
+                                  [a.replace('$ROOT', root) for a in case.get('argv', [])])
             except BaseException:
                 rcode = 1
+            finally:
+                for k in case.get('env', {}):
+                    os.environ.pop(k, None)
             if not rcode:
                 ctx.violation('build succeeded although require() is unusable (%s)' % case['error_kind'], case)
             return
@@ -636,7 +680,7 @@ def gates(m, tier):
               'require_form:stmt', 'require_form:assign', 'require_form:local', 'require_form:field', 'require_form:callarg',
               'require_form:chain', 'require_form:nestedfn', 'require_form:in_if', 'require_form:in_else', 'require_form:in_shortif',
               'require_form:in_loop', 'require_form:in_cond', 'error:missing', 'error:noargs', 'error:threeargs', 'error:nonstring',
-              'error:badoption', 'gameloop_with_comment_before_or_code_after', 'gameloop_name_as_last_component', 'dotted_gameloop_name', 'package_name_non_ascii', 'directory_named_like_package', 'two_files_match_first_entry_wins', 'found_via_pattern_with_placeholder_in_directory',
+              'error:badoption', 'error:offpath_next_to_main', 'error:offpath_next_to_package', 'error:offpath_env', 'main_ends_with_return', 'gameloop_with_comment_before_or_code_after', 'gameloop_name_as_last_component', 'dotted_gameloop_name', 'package_name_non_ascii', 'directory_named_like_package', 'two_files_match_first_entry_wins', 'found_via_pattern_with_placeholder_in_directory',
               'package_without_remaining_code:empty_file', 'package_without_remaining_code:comments_only', 'package_without_remaining_code:game_loop_only', 'one_file_two_names_opposite_options', 'main_starts_with_comment'):
         if f.get(k, 0) < 2:
             missed.append('%s seen %d times' % (k, f.get(k, 0)))
